@@ -437,6 +437,47 @@ def misc_case(item):
             except (ValueError, OverflowError, struct.error):
                 pass
             n += 1
+    elif kind == "ClientHelloSSL2":
+        # SSLv2-framed ClientHello (after its type byte): three declared
+        # lengths, cipher specs of three bytes each
+        def fn(d):
+            class _M(object):
+                def __init__(self, m):
+                    self.m = m
+
+                def write(self):
+                    return self.m.write()[1:]       # (type byte added)
+            return _M(M.ClientHello(ssl2=True).parse(Parser(bytearray(d))))
+
+        def enc(nspec_bytes, specs, sid, chal, ver=(3, 3)):
+            return bytes(ver) + struct.pack(">HHH", nspec_bytes, len(sid),
+                                            len(chal)) + specs + sid + chal
+        specs = bytes.fromhex("00002f0000350700c0")
+        chal = bytes(range(32))
+        check("value", fn, enc(9, specs, b"", chal), True)
+        check("value-with-session-id", fn, enc(9, specs, b"s" * 16, chal),
+              True)
+        for n in (0, 1, 2, 4, 5, 7, 8, 10, 11):
+            # the declared length with exactly that many bytes of specs
+            body = (specs + specs)[:n]
+            r = judge_parse(fn, enc(n, body, b"", chal))
+            sigs.add((kind, "specs-length", r[0]))
+            if n % 3 and r[0] != "rejected":
+                fails.append({"class": kind, "case": "specs-length=%d" % n,
+                              "why": "cipher specs length that is not a "
+                              "multiple of 3 accepted: %r" % (r,)})
+        d0 = enc(9, specs, b"", chal)
+        for delta in (-2, -1, 1, 2, 3):
+            for off in (2, 4, 6):       # each of the three length fields
+                b = bytearray(d0)
+                v = int.from_bytes(b[off:off + 2], "big") + delta
+                if v < 0:
+                    continue
+                b[off:off + 2] = v.to_bytes(2, "big")
+                check("len@%d%+d" % (off, delta), fn, bytes(b))
+        for cut in range(len(d0)):
+            check("truncate@%d" % cut, fn, d0[:cut])
+        check("trailing", fn, d0 + b"\x00")
     elif kind == "SessionTicketPayload":
         from tlslite.messages import SessionTicketPayload
 
@@ -713,7 +754,8 @@ def run(res, tier, seed):
     nx = 0
     for (n, fails, sigs) in pmap(misc_case, [(k, tier) for k in (
             "RecordHeader3", "Alert", "ChangeCipherSpec", "Heartbeat",
-            "SessionTicketPayload", "writer", "oversize-create")],
+            "SessionTicketPayload", "ClientHelloSSL2", "writer",
+            "oversize-create")],
             chunksize=1):
         nx += n
         res.count(n)
